@@ -194,12 +194,17 @@ class IOBase(Communicator):
     def check_connection(self):
         """called before communicate"""
         if not self.is_connected:
-            now = time.time()
-            if now >= self._last_connect_attempt + self.pollinterval:
-                # we do not try to reconnect more often than pollinterval
-                self._last_connect_attempt = now
-                if self.read_is_connected():
-                    return
+            # accessLock is the lock of read_is_connected: no attempt of an other thread
+            # (e.g. the poller) may come between the test of the rate limit and our attempt
+            with self.accessLock:
+                if self.is_connected:
+                    return  # connected by an other thread in the meantime
+                now = time.time()
+                if now >= self._last_connect_attempt + self.pollinterval:
+                    # we do not try to reconnect more often than pollinterval
+                    self._last_connect_attempt = now
+                    if self.read_is_connected():
+                        return
             raise SilentError('disconnected') from None
 
     def registerReconnectCallback(self, name, func):
